@@ -525,6 +525,8 @@ async fn create_session(State(state): State<AppState>) -> impl IntoResponse {
     let session_id = handle.session_id.clone();
 
     let mut sessions = state.sessions.lock().await;
+    #[cfg(rip_verif)]
+    rip_kernel::verif::point("server.sessions.locked");
     sessions.insert(session_id.clone(), handle);
 
     (StatusCode::CREATED, Json(SessionCreated { session_id }))
